@@ -1,6 +1,7 @@
 package verifharness
 
 import (
+	"bytes"
 	"fmt"
 	"math"
 	"testing"
@@ -24,9 +25,25 @@ func genEdge(rt *rapid.T) *EdgeSpec {
 	if s.Ctx == "SB" || s.Ctx == "MB" {
 		kinds = append(kinds, "MBWriteRune", "MBWriteByte")
 	}
+	kinds = append(kinds, "PrintCast", "PrintCast")
 	k := kinds[rapid.IntRange(0, len(kinds)-1).Draw(rt, "ek")]
 	e := &Op{K: k}
 	switch k {
+	case "PrintCast":
+		// marker-free bytes (every byte of a marker that is complete is
+		// replaced), often very short and made of continuation bytes only
+		var b []byte
+		if rapid.Bool().Draw(rt, "castshort") {
+			b = rapid.SliceOfN(rapid.SampledFrom([]byte{0x80, 0xB9, 0xBA, 0xE2, 0xBF, 0xC3, 'a', '\n'}), 0, 4).Draw(rt, "castb")
+		} else {
+			b = genBytes(rt, "cast", 6)
+		}
+		b = bytes.ReplaceAll(bytes.ReplaceAll(append([]byte(nil), b...), []byte(startS), []byte("m")), []byte(endS), []byte("m"))
+		e.S = b
+		e.I = int64(rapid.IntRange(0, 1).Draw(rt, "castkind"))
+		if rapid.IntRange(0, 2).Draw(rt, "castfirst") == 0 {
+			s.Prefix = nil // the very first thing written
+		}
 	case "SafeRune", "UnsafeRune", "WriteRune", "MBWriteRune":
 		switch rapid.IntRange(0, 4).Draw(rt, "rk") {
 		case 0:
